@@ -2169,6 +2169,8 @@ impl<R: Read> Vp8Decoder<R> {
 
     fn decode_frame_(mut self) -> Result<Frame, DecodingError> {
         self.read_frame_header()?;
+        #[cfg(image_webp_verif)]
+        verif_parse::record_header(&self);
 
         for mby in 0..self.mbheight as usize {
             let p = mby % self.num_partitions as usize;
@@ -2193,6 +2195,8 @@ impl<R: Read> Vp8Decoder<R> {
 
                     [0i32; 384]
                 };
+                #[cfg(image_webp_verif)]
+                verif_parse::record_macroblock(&self, mbx, p, &mb, &blocks);
 
                 self.intra_predict_luma(mbx, mby, &mb, &blocks);
                 self.intra_predict_chroma(mbx, mby, &mb, &blocks);
@@ -3252,6 +3256,90 @@ pub(crate) mod verif_parse {
         ) -> Result<bool, DecodingError> {
             self.d.read_coefficients(block, p, plane, complexity, dcq, acq)
         }
+    }
+
+    /// What the macroblock loop of `decode_frame_` has parsed for one macroblock, and the parsing state it is in at
+    /// that point (recorded by the two `record_*` calls placed in `decode_frame_` itself).
+    #[derive(Clone, Debug, PartialEq, Eq)]
+    pub struct MbTrace {
+        /// the `MacroBlock` the loop pushes to `macroblocks` (after `non_zero_coeffs` has been set)
+        pub mb: MbState,
+        /// the `[i32; 384]` residuals handed to the prediction functions
+        pub blocks: Vec<i32>,
+        /// registers of `b` (first partition)
+        pub b: DecState,
+        /// registers of `partitions[p]`
+        pub partition: DecState,
+        /// `top[mbx]`
+        pub top: MbState,
+        /// `left`
+        pub left: MbState,
+    }
+
+    /// A recording of one run of `decode_frame_`.
+    #[derive(Clone, Debug, Default, PartialEq, Eq)]
+    pub struct FrameTrace {
+        /// `[mbwidth, mbheight, num_partitions, frame.width, frame.height]` once `read_frame_header` has returned Ok
+        pub header: Option<[u32; 5]>,
+        /// one entry per macroblock whose parsing has completed, in the order of the loop
+        pub mbs: Vec<MbTrace>,
+    }
+
+    thread_local! {
+        static TRACE: std::cell::RefCell<Option<FrameTrace>> = std::cell::RefCell::new(None);
+    }
+
+    /// called by `decode_frame_` right after `read_frame_header`
+    pub(super) fn record_header<R: Read>(d: &Vp8Decoder<R>) {
+        TRACE.with(|t| {
+            if let Some(tr) = t.borrow_mut().as_mut() {
+                tr.header = Some([
+                    u32::from(d.mbwidth),
+                    u32::from(d.mbheight),
+                    u32::from(d.num_partitions),
+                    u32::from(d.frame.width),
+                    u32::from(d.frame.height),
+                ]);
+            }
+        });
+    }
+
+    /// called by `decode_frame_` for every macroblock, between parsing and prediction
+    pub(super) fn record_macroblock<R: Read>(
+        d: &Vp8Decoder<R>,
+        mbx: usize,
+        p: usize,
+        mb: &MacroBlock,
+        blocks: &[i32; 384],
+    ) {
+        TRACE.with(|t| {
+            if let Some(tr) = t.borrow_mut().as_mut() {
+                tr.mbs.push(MbTrace {
+                    mb: mb_to_state(mb),
+                    blocks: blocks.to_vec(),
+                    b: dec_to_state(&d.b),
+                    partition: dec_to_state(&d.partitions[p]),
+                    top: mb_to_state(&d.top[mbx]),
+                    left: mb_to_state(&d.left),
+                });
+            }
+        });
+    }
+
+    /// starts recording on this thread (an earlier recording is dropped)
+    pub fn trace_start() {
+        TRACE.with(|t| *t.borrow_mut() = Some(FrameTrace::default()));
+    }
+
+    /// stops recording and returns what was recorded (also after a panic inside the decoder)
+    pub fn trace_take() -> FrameTrace {
+        TRACE.with(|t| t.borrow_mut().take().unwrap_or_default())
+    }
+
+    /// The real `Vp8Decoder::decode_frame` over `payload` (header, macroblock loop with prediction, loop filter,
+    /// crop).  Between `trace_start` and `trace_take` the run is recorded.  Returns the frame size.
+    pub fn decode_frame_traced(payload: Vec<u8>) -> Result<(u16, u16), DecodingError> {
+        Vp8Decoder::decode_frame(Cursor::new(payload)).map(|f| (f.width, f.height))
     }
 }
 
